@@ -522,7 +522,12 @@ func (d Dec) Ceil() Dec {
 		return NewDecFromBigInt(quo)
 	}
 
-	return NewDecFromBigInt(quo.Add(quo, oneInt))
+	res := NewDecFromBigInt(quo.Add(quo, oneInt))
+	// rounding up can leave the representable range, like every other operation it must not do so silently
+	if res.Int.BitLen() > 255+DecimalPrecisionBits {
+		panic("Int overflow")
+	}
+	return res
 }
 
 //___________________________________________________________________________________
